@@ -636,6 +636,15 @@ char *macros_expand_params(
     // skip whitespace immediately after opening parenthesis or a comma
     if ((ch == ' ' || ch == '\t') && (ptr == 0 || params[ptr - 1] == 0)) { continue; }
 
+    // Leave room for the escape pair below and the terminating 0.  This has
+    // to come first: a run of escape pairs never reaches the code after it.
+    if (ptr >= (int)sizeof(params) - 4 || count >= 254)
+    {
+      print_error(asm_context, "Macro parameters too long");
+      asm_context->error = 1;
+      return nullptr;
+    }
+
     if (ch == '\\' && (in_string || in_ticks))
     {
       params[ptr++] = ch;
@@ -655,14 +664,6 @@ char *macros_expand_params(
     if (ch == '\n' || ch == EOF)
     {
       print_error(asm_context, "Macro expects ')'");
-      asm_context->error = 1;
-      return nullptr;
-    }
-
-    // Leave room for the escape pair above and the terminating 0.
-    if (ptr >= (int)sizeof(params) - 4 || count >= 254)
-    {
-      print_error(asm_context, "Macro parameters too long");
       asm_context->error = 1;
       return nullptr;
     }
